@@ -4,9 +4,9 @@ use crate::support::*;
 use educe::Educe;
 use core::cmp::Ordering;
 #[derive(Educe)]
-#[educe(PartialEq)]
-pub enum T { None { #[educe(PartialEq(ignore))] _0: A<0>, b: A<1> }, C(), V1(A<0>, #[educe(PartialEq = false)] A<0>) }
-pub fn values() -> Vec<T> { vec![T::None { _0: A(0), b: A(0) }, T::None { _0: A(0), b: A(1) }, T::None { _0: A(0), b: A(7) }, T::None { _0: A(1), b: A(0) }, T::None { _0: A(1), b: A(1) }, T::None { _0: A(1), b: A(7) }, T::None { _0: A(7), b: A(0) }, T::None { _0: A(7), b: A(1) }, T::None { _0: A(7), b: A(7) }, T::C(), T::V1(A(0), A(0)), T::V1(A(0), A(1)), T::V1(A(0), A(7)), T::V1(A(1), A(0)), T::V1(A(1), A(1)), T::V1(A(1), A(7)), T::V1(A(7), A(0)), T::V1(A(7), A(1)), T::V1(A(7), A(7))] }
-pub fn show(x: &T) -> String { #[allow(unused_variables)] match x { T::None { _0: p0, b: p1 } => format!("None({},{})", sv(p0), sv(p1)), T::C() => format!("C()"), T::V1(p0, p1) => format!("V1({},{})", sv(p0), sv(p1)) } }
-pub fn o_eq(a: &T, b: &T) -> bool { match (a, b) { (T::None { _0: a0, b: a1 }, T::None { _0: b0, b: b1 }) => (a1 == b1), (T::C(), T::C()) => true, (T::V1(a0, a1), T::V1(b0, b1)) => (a0 == b0), _ => false } }
+#[educe(PartialEq, Eq)]
+pub struct T { x: A<0>, #[educe(PartialEq(method("m_eq")))] f: A<1>, #[educe(PartialEq(ignore = true))] builder: A<0> }
+pub fn values() -> Vec<T> { vec![T { x: A(0), f: A(0), builder: A(0) }, T { x: A(0), f: A(0), builder: A(1) }, T { x: A(0), f: A(0), builder: A(7) }, T { x: A(0), f: A(1), builder: A(0) }, T { x: A(0), f: A(1), builder: A(1) }, T { x: A(0), f: A(1), builder: A(7) }, T { x: A(0), f: A(7), builder: A(0) }, T { x: A(0), f: A(7), builder: A(1) }, T { x: A(0), f: A(7), builder: A(7) }, T { x: A(1), f: A(0), builder: A(0) }, T { x: A(1), f: A(0), builder: A(1) }, T { x: A(1), f: A(0), builder: A(7) }, T { x: A(1), f: A(1), builder: A(0) }, T { x: A(1), f: A(1), builder: A(1) }, T { x: A(1), f: A(1), builder: A(7) }, T { x: A(1), f: A(7), builder: A(0) }, T { x: A(1), f: A(7), builder: A(1) }, T { x: A(1), f: A(7), builder: A(7) }, T { x: A(7), f: A(0), builder: A(0) }, T { x: A(7), f: A(0), builder: A(1) }, T { x: A(7), f: A(0), builder: A(7) }, T { x: A(7), f: A(1), builder: A(0) }, T { x: A(7), f: A(1), builder: A(1) }, T { x: A(7), f: A(1), builder: A(7) }, T { x: A(7), f: A(7), builder: A(0) }, T { x: A(7), f: A(7), builder: A(1) }, T { x: A(7), f: A(7), builder: A(7) }] }
+pub fn show(x: &T) -> String { #[allow(unused_variables)] match x { T { x: p0, f: p1, builder: p2 } => format!("T({},{},{})", sv(p0), sv(p1), sv(p2)) } }
+pub fn o_eq(a: &T, b: &T) -> bool { match (a, b) { (T { x: a0, f: a1, builder: a2 }, T { x: b0, f: b1, builder: b2 }) => (a0 == b0) && m_eq(a1, b1) } }
 pub fn run(out: &mut Out) { let vs = values(); for a in &vs { for b in &vs { let e = o_eq(a, b); out.check((a == b) == e, "eq_11", "eq", || format!("{} == {} expected {}", show(a), show(b), e)); out.check((a != b) == !e, "eq_11", "ne", || format!("{} != {} expected {}", show(a), show(b), !e)); } } }
